@@ -2,5 +2,6 @@
 //! dependency-tracking check (C32).
 pub mod cbuild;
 pub mod compo;
+pub mod rsbuild;
 pub mod util;
 pub mod worlds;
